@@ -127,6 +127,8 @@ impl<T: FileReader> RVParser<T> {
         ));
 
         while let Some(l) = self.lexer() {
+            #[cfg(riscv_analysis_verif)]
+            crate::verif::tick("parse");
             let node = ParserNode::try_from(l);
 
             match node {
@@ -998,6 +1000,8 @@ impl TryFrom<&mut Peekable<Lexer>> for ParserNode {
                             // not found
                             let mut values = Vec::new();
                             loop {
+                                #[cfg(riscv_analysis_verif)]
+                                crate::verif::tick("data-list");
                                 let next = lex.peek_any()?;
                                 if let TokenType::Newline = next.token_type() {
                                     // consume newline
@@ -1026,6 +1030,8 @@ impl TryFrom<&mut Peekable<Lexer>> for ParserNode {
                             // macros are unsupported
                             // we will just ignore them until the we reach endmacro
                             loop {
+                                #[cfg(riscv_analysis_verif)]
+                                crate::verif::tick("macro-skip");
                                 let next = lex.get_any()?;
                                 if let TokenType::Directive(dir2) = next.token_type() {
                                     if let Ok(new_dir) = DirectiveToken::from_str(dir2) {
